@@ -374,7 +374,7 @@ def value_matches(ref, act, path, out, points=None):
                 return
 
             def fn(beta):
-                return act.func(*[float(beta[("r", r)].v) for r in act.regrefs])
+                return act.func(*[int(beta[("r", r)].v) if beta[("r", r)].kind == "int" else float(beta[("r", r)].v) for r in act.regrefs])
             try:
                 m = VC.sym_matches(ref, fn, SYM_RTOL[0])
             except IllConditioned:
